@@ -40,6 +40,15 @@ impl Validation {
             }
         }
 
+        // The prefix is part of the single output line
+        if let Some(prefix) = &output.output_prefix {
+            if prefix.contains('\n') || prefix.contains('\r') {
+                return Err(ZervError::InvalidArgument(
+                    "--output-prefix must not contain line breaks".to_string(),
+                ));
+            }
+        }
+
         Ok(())
     }
 
